@@ -599,6 +599,22 @@ func c01(c *core.Ctx) {
 				c.Check("stable-pointer-read@"+nm, "node-local-read", okc, ci.Pos(), "%s consults the node's stable block inside the consensus closure", nm)
 			}
 		}
+		// GetCanonicalAccount answers from the account as of the node's STABLE block: inside the closure it is called only where the known
+		// finding D18 records it (VerifyAssetTx); every other account read goes through the manager's view of the branch being executed
+		gca := c.Method("chain/account.Manager", "GetCanonicalAccount")
+		nG := 0
+		for _, f := range fns {
+			for _, ci := range core.CallsIn(f, gca) {
+				nG++
+				nm := shortFn(f)
+				if nm == "(*transaction.TxProcessor).VerifyAssetTx" {
+					c.CheckTrivial("stable-state-read/GetCanonicalAccount@"+nm, "node-local-read", true, ci.Pos(), "the site of the recorded finding C01.1/db/GetAccount@GetCanonicalAccount (D18)")
+					continue
+				}
+				c.Check("stable-state-read/GetCanonicalAccount@"+nm, "node-local-read", false, ci.Pos(), "%s reads an account as of the node's stable block (GetCanonicalAccount) inside the consensus closure (%s): nodes with different stable heights compute different results", nm, closurePath(cl, f))
+			}
+		}
+		c.Floor("stable-state-read/sites", nG, 1)
 		// the read-only manager (stable-only views for RPC) is created outside the consensus packages
 		names, _ := callersOf(c, c.FuncObj("chain/account.NewReadOnlyManager"))
 		ok := len(names) > 0
